@@ -202,10 +202,11 @@ def check_json_keys(chk, ix):
                   "JSON %s: keys written but not read back %s; keys read but never written %s" % (kind, unread_required, unwritten))
         else:
             chk.ok("F6", {"element": kind, "written": sorted(wkeys), "read": sorted(rkeys)}, nontrivial_key=kind)
-    # the element type tags the reader dispatches on are the ones written
+    # the element types the writer writes are understood by the reader: add_feature_element evaluated on an element of
+    # each written type, the parse_* methods recording who is asked
     af = r.lookup("add_feature_element")
-    chk.instance("F6")
-    cmp_consts = {n.comparators[0].value for n in ast.walk(af.node) if isinstance(n, ast.Compare) and isinstance(n.comparators[0], ast.Constant)}
+    if af is None:
+        raise AnalysisError("anchor missing: JsonParser.add_feature_element")
     written_types = set()
     for m in ("background", "scenario"):
         for n in ast.walk(w.lookup(m).node):
@@ -213,11 +214,32 @@ def check_json_keys(chk, ix):
                 for k, v in zip(n.keys, n.values):
                     if isinstance(k, ast.Constant) and k.value == "type" and isinstance(v, ast.Constant):
                         written_types.add(v.value)
-    if written_types <= cmp_consts and written_types:
-        chk.ok("F6", {"element_types_written": sorted(written_types), "reader_dispatch": sorted(cmp_consts)}, nontrivial_key="types")
-    else:
-        _fail(chk, "F6", af.fullname, af.file, af.lineno, "types written %s read %s" % (sorted(written_types), sorted(cmp_consts)),
-              "element types written %s are not all understood by the reader (%s)" % (sorted(written_types), sorted(cmp_consts)))
+    if not written_types:
+        raise AnalysisError("anchor missing: the 'type' entries JSONFormatter.background / scenario write")
+    want_parser = {"background": "parse_background", "scenario": "parse_scenario", "scenario_outline": "parse_scenario_outline"}
+    for t in sorted(written_types):
+        chk.instance("F6")
+        asked = []
+        stubs = {}
+        for pm in set(want_parser.values()):
+            stubs["JsonParser." + pm] = (lambda i, s_, a, k, n, _pm=pm: (asked.append(_pm), [(s_, "val", s_.alloc(HObj("ParsedTok", {}, open=True, label=_pm)))])[1])
+        stubs["FeatureTok.add_scenario"] = lambda i, s_, a, k, n: [(s_, "val", None)]
+        it = Interp(ix, stubs=stubs, name="JsonParser.add_feature_element")
+        it.int_sat = 100
+        st = State()
+        st.frames = []
+        me = st.alloc(HObj(r, {"current_scenario_outline": None}, label="json parser"))
+        feat = st.alloc(HObj("FeatureTok", {"background": None}, open=True, label="feature"))
+        elem = st.alloc(HObj("dict", kind="dict", items=[("type", t), ("keyword", "K"), ("name", "n"), ("steps", st.alloc(HObj("list", kind="list", items=[])))]))
+        outs = it.call_function(st, af, [feat, elem], {}, None, self_val=me)
+        chk.absorb(it)
+        ok_ = len(outs) == 1 and outs[0][1] == "val" and asked == [want_parser.get(t.lower())]
+        if ok_:
+            chk.ok("F6", {"element type written": t, "reader asks": asked}, nontrivial_key=("type", t))
+        else:
+            _fail(chk, "F6", af.fullname, af.file, af.lineno, "type %r: %s" % (t, [(k_, repr(v_)[:60]) for _, k_, v_ in outs][:2] + asked),
+                  "an element of type %r, as the JSON formatter writes it, makes JsonParser.add_feature_element %s (parsers asked: %s); expected %s"
+                  % (t, "raise" if any(k_ == "raise" for _, k_, _v in outs) else "return", asked, want_parser.get(t.lower())))
 
 
 # ----------------------------------------------------------------------
